@@ -16,6 +16,12 @@ func init() {
 	register("C03", "status-silenced-and-inhibited", c13Status)
 	register("C02", "status-silenced-and-inhibited", c13Status)
 	multiplicity["C03/status-silenced-and-inhibited"] = 3
+	// the same inside a group that a mute time interval mutes right now: the grouped view still reports who silences
+	// and who inhibits each alert
+	for _, p := range []string{"C13", "C03", "C02"} {
+		register(p, "status-silenced-and-inhibited-in-a-muted-group", c13Status)
+		multiplicity[p+"/status-silenced-and-inhibited-in-a-muted-group"] = 2
+	}
 	multiplicity["C02/status-silenced-and-inhibited"] = 3
 	register("C13", "muted-by-names-the-current-interval", c13MutedBy)
 	multiplicity["C13/status-silenced-and-inhibited"] = 3
@@ -23,10 +29,18 @@ func init() {
 }
 
 func c13Status(s *sc) {
+	mutedGroup := strings.Contains(s.c.Kind, "muted-group")
 	conf := Conf{
 		Root:      Route{Receiver: "r0", GroupBy: []string{"id"}, GW: gw, GI: gi, RI: time.Hour},
 		Receivers: []Recv{{Name: "r0", Hooks: []Hook{{SendResolved: false}}}},
 		Inhibit:   []Inhibit{{Source: []string{`sev="crit"`}, Target: []string{`sev="warn"`}, Equal: []string{"svc"}}},
+	}
+	if mutedGroup {
+		// every alert goes through a route that a mute interval containing the present instant mutes
+		// (ONE group for all alerts: an alert that is alone in its group and inhibited is dropped before the time-interval
+		// stages run, so its group would never be marked muted)
+		conf.Root.Routes = []Route{{Receiver: "r0", Matchers: []string{`alertname="A"`}, Mute: []string{"ti"}, GroupBy: []string{"alertname"}}}
+		conf.Intervals = []Interval{{Name: "ti", Times: rangesAround(time.Now())}}
 	}
 	in, err := s.instance(nil)
 	s.must(err, "instance")
@@ -137,20 +151,66 @@ func c13Status(s *sc) {
 		}
 	}
 	// ---- the grouped view carries the same status ----
+	if mutedGroup {
+		// wait until the groups have flushed once (the flush marks them muted by the interval)
+		dl := tPost.Add(gw + slack + late)
+		for {
+			groups, err := in.GetGroups()
+			s.must(err, "GET groups")
+			marked := 0
+			for _, g := range groups {
+				for _, a := range g.Alerts {
+					if strings.Join(a.Status.MutedBy, ",") == "ti" {
+						marked++
+					}
+				}
+			}
+			if marked == len(full) {
+				break
+			}
+			if time.Now().After(dl) {
+				s.inconclusive("the groups were not reported muted by the interval within group_wait+%s (%d of %d)", slack+late, marked, len(full))
+				return
+			}
+			time.Sleep(100 * time.Millisecond)
+		}
+	}
 	groups, err := in.GetGroups()
 	s.must(err, "GET groups")
+	seen := 0
 	for _, g := range groups {
 		for _, a := range g.Alerts {
+			seen++
 			f := full[a.Labels["id"]]
-			if a.Status.State != f.Status.State || strings.Join(sorted(a.Status.SilencedBy), ",") != strings.Join(sorted(f.Status.SilencedBy), ",") || strings.Join(a.Status.InhibitedBy, ",") != strings.Join(f.Status.InhibitedBy, ",") {
-				s.violate("groups-status-differs-from-alerts-status", "alert %q: /alerts/groups reports %+v, /alerts reports %+v", a.Labels["id"], a.Status, f.Status)
+			wantState := f.Status.State
+			if mutedGroup {
+				wantState = "suppressed" // muted by the interval, whatever else holds
+			}
+			if a.Status.State != wantState || strings.Join(sorted(a.Status.SilencedBy), ",") != strings.Join(sorted(f.Status.SilencedBy), ",") || strings.Join(a.Status.InhibitedBy, ",") != strings.Join(f.Status.InhibitedBy, ",") {
+				what := ""
+				if mutedGroup {
+					what = " (its group is muted by time interval ti right now: mutedBy=" + strings.Join(a.Status.MutedBy, ",") + ")"
+				}
+				s.violate("groups-status-differs-from-alerts-status", "alert %q%s: /alerts/groups reports state=%s silencedBy=%v inhibitedBy=%v, /alerts reports state=%s silencedBy=%v inhibitedBy=%v", a.Labels["id"], what, a.Status.State, a.Status.SilencedBy, a.Status.InhibitedBy, f.Status.State, f.Status.SilencedBy, f.Status.InhibitedBy)
 			}
 		}
+	}
+	if seen != len(full) && !s.violated() {
+		s.violate("groups-view-incomplete", "/alerts/groups lists %d of the %d alerts", seen, len(full))
 	}
 	if s.violated() {
 		return
 	}
 	s.count("filters-judged")
+	if mutedGroup {
+		time.Sleep(time.Until(tPost.Add(gw + 1200*time.Millisecond)))
+		if n := len(in.Sink.Reqs()); n > 0 {
+			s.violate("muted-group-notified", "every group is inside the mute interval and %d notification(s) went out", n)
+			return
+		}
+		s.count("muted-group-status-judged")
+		return
+	}
 	// ---- and only the unsuppressed alerts are notified ----
 	if tInhVisible.After(tPost.Add(gw - 300*time.Millisecond)) {
 		s.inconclusive("the inhibitor saw the source alert too close to the first flush to judge the deliveries")
